@@ -24,6 +24,8 @@ use vkit::{pick, Args, Evidence, Outcome, RunCfg};
 pub enum Step {
     Suspend,
     Delay(u8),
+    /// cancel another coroutine (monotone index) from inside the running pass
+    CancelOther(u16),
 }
 
 #[derive(Debug, Clone, Copy, Serialize, Deserialize, PartialEq)]
@@ -55,7 +57,7 @@ pub struct Case {
 
 pub fn strategy() -> impl Strategy<Value = Case> {
     let prog = (
-        proptest::collection::vec(prop_oneof![3 => Just(Step::Suspend), 2 => (1u8..25).prop_map(Step::Delay)], 0..5),
+        proptest::collection::vec(prop_oneof![6 => Just(Step::Suspend), 4 => (1u8..25).prop_map(Step::Delay), 1 => any::<u16>().prop_map(Step::CancelOther)], 0..5),
         prop_oneof![4 => any::<u16>().prop_map(End::Return), 1 => Just(End::Panic)],
         prop_oneof![2 => Just(None), 3 => (-2i8..3).prop_map(Some)],
     )
@@ -99,10 +101,17 @@ pub fn exec(c: &Case) -> Outcome {
     let pending: Rc<RefCell<Vec<Option<u64>>>> = Rc::new(RefCell::new(vec![None; c.cos.len()]));
     let mut sch = Scheduler::new(format!("c10-{serial}"), 64 * 1024);
     let mut ids = vec![];
+    // shared with the bodies: ids (filled after submission), results seen so far, cancel marks
+    let shared_ids: Rc<RefCell<Vec<u64>>> = Rc::default();
+    let finished_flags: Rc<RefCell<Vec<bool>>> = Rc::new(RefCell::new(vec![false; c.cos.len()]));
+    let cancelled_sh: Rc<RefCell<Vec<Option<usize>>>> = Rc::new(RefCell::new(vec![None; c.cos.len()]));
+    let inner_cancels: Rc<RefCell<u32>> = Rc::default();
     for (i, p) in c.cos.iter().enumerate() {
         let p = p.clone();
         let log = log.clone();
         let pending = pending.clone();
+        let (shared_ids, finished_flags, cancelled_sh, inner_cancels) = (shared_ids.clone(), finished_flags.clone(), cancelled_sh.clone(), inner_cancels.clone());
+        let ncos = c.cos.len();
         let id = sch
             .submit_co(
                 move |s: &Suspender<(), ()>, ()| {
@@ -121,10 +130,24 @@ pub fn exec(c: &Case) -> Outcome {
                                 pending.borrow_mut()[i] = Some(ts);
                                 s.until(ts);
                             }
+                            Step::CancelOther(ix) => {
+                                due = None;
+                                let j = pick(*ix, ncos);
+                                // only a coroutine that is neither running (that is us), finished
+                                // nor already cancelled
+                                if j != i && !finished_flags.borrow()[j] && cancelled_sh.borrow()[j].is_none() {
+                                    let n = log.borrow().iter().filter(|e| e.co == j).count();
+                                    Scheduler::try_cancel_coroutine(shared_ids.borrow()[j]);
+                                    cancelled_sh.borrow_mut()[j] = Some(n);
+                                    pending.borrow_mut()[j] = None;
+                                    *inner_cancels.borrow_mut() += 1;
+                                }
+                            }
                         }
                     }
                     log.borrow_mut().push(LogEv { co: i, step: p.steps.len(), at: now(), due });
                     pending.borrow_mut()[i] = None;
+                    finished_flags.borrow_mut()[i] = true;
                     match p.end {
                         End::Return(v) => Some(v as usize),
                         End::Panic => panic!("c10 panic of coroutine #{i}"),
@@ -136,15 +159,21 @@ pub fn exec(c: &Case) -> Outcome {
             .expect("submit_co");
         ids.push(id);
     }
+    *shared_ids.borrow_mut() = ids.clone();
     let mut o = Outcome::pass();
     let mut results: HashMap<u64, Result<Option<usize>, String>> = HashMap::new();
-    let mut cancelled: Vec<Option<usize>> = vec![None; c.cos.len()]; // log length at cancel time
+    // log length of each coroutine at the time it was cancelled (driver- or body-issued)
+    macro_rules! cancelled {
+        () => {
+            cancelled_sh.borrow().clone()
+        };
+    }
     let mut spanning_delay = false;
     let mut cancels = 0;
     let finished = |results: &HashMap<u64, Result<Option<usize>, String>>, cancelled: &Vec<Option<usize>>| -> bool {
         (0..c.cos.len()).all(|i| cancelled[i].is_some() || results.contains_key(&ids[i]))
     };
-    let do_pass = |sch: &mut Scheduler<'_>, timed: Option<u8>, o: &mut Outcome, results: &mut HashMap<u64, Result<Option<usize>, String>>, cancelled: &Vec<Option<usize>>| {
+    let do_pass = |sch: &mut Scheduler<'_>, timed: Option<u8>, o: &mut Outcome, results: &mut HashMap<u64, Result<Option<usize>, String>>| {
         let start = now();
         let waiting_before: Vec<Option<u64>> = pending.borrow().clone();
         let log_len_before = log.borrow().len();
@@ -164,7 +193,7 @@ pub fn exec(c: &Case) -> Outcome {
         if left > 0 {
             for (i, w) in waiting_before.iter().enumerate() {
                 if let Some(ts) = w {
-                    if *ts <= start && cancelled[i].is_none() {
+                    if *ts <= start && cancelled_sh.borrow()[i].is_none() {
                         let resumed = log.borrow()[log_len_before..].iter().any(|e| e.co == i);
                         if !resumed {
                             o.set_fail(
@@ -189,14 +218,15 @@ pub fn exec(c: &Case) -> Outcome {
             break;
         }
         match *d {
-            Drv::TimedPass(ms) => spanning_delay |= do_pass(&mut sch, Some(ms), &mut o, &mut results, &cancelled),
-            Drv::Pass => spanning_delay |= do_pass(&mut sch, None, &mut o, &mut results, &cancelled),
+            Drv::TimedPass(ms) => spanning_delay |= do_pass(&mut sch, Some(ms), &mut o, &mut results),
+            Drv::Pass => spanning_delay |= do_pass(&mut sch, None, &mut o, &mut results),
             Drv::Sleep(ms) => std::thread::sleep(Duration::from_millis(u64::from(ms))),
             Drv::Cancel(ix) => {
                 let i = pick(ix, c.cos.len());
-                if cancelled[i].is_none() && !results.contains_key(&ids[i]) {
+                if cancelled!()[i].is_none() && !results.contains_key(&ids[i]) {
                     Scheduler::try_cancel_coroutine(ids[i]);
-                    cancelled[i] = Some(log.borrow().iter().filter(|e| e.co == i).count());
+                    let n = log.borrow().iter().filter(|e| e.co == i).count();
+                    cancelled_sh.borrow_mut()[i] = Some(n);
                     pending.borrow_mut()[i] = None;
                     cancels += 1;
                 }
@@ -207,16 +237,18 @@ pub fn exec(c: &Case) -> Outcome {
     let mut rounds = 0;
     while o.fail.is_none() && rounds < 60 {
         rounds += 1;
-        let _ = do_pass(&mut sch, None, &mut o, &mut results, &cancelled);
+        let _ = do_pass(&mut sch, None, &mut o, &mut results);
         let waiting = pending.borrow().iter().any(|w| w.is_some());
-        if finished(&results, &cancelled) && !waiting {
+        if finished(&results, &cancelled!()) && !waiting {
             break;
         }
         std::thread::sleep(Duration::from_millis(3));
     }
     // one more settle for cancelled coroutines still parked in the timer heap
     std::thread::sleep(Duration::from_millis(26));
-    let _ = do_pass(&mut sch, None, &mut o, &mut results, &cancelled);
+    let _ = do_pass(&mut sch, None, &mut o, &mut results);
+    let cancelled = cancelled!();
+    cancels += *inner_cancels.borrow();
     if o.fail.is_none() && !finished(&results, &cancelled) {
         let missing: Vec<usize> = (0..c.cos.len()).filter(|i| cancelled[*i].is_none() && !results.contains_key(&ids[*i])).collect();
         o.set_fail("C10/coroutine-never-finished", format!("coroutines {missing:?} never produced a result although the scheduler kept being driven"));
@@ -282,8 +314,10 @@ pub fn exec(c: &Case) -> Outcome {
         }
     }
     o.nontrivial = c.cos.len() >= 2 && (spanning_delay || cancels >= 1);
+    let inner_n = *inner_cancels.borrow();
     o.class_if(spanning_delay, "delay-spans-a-pass-boundary")
         .class_if(cancels >= 1, "cancel")
+        .class_if(inner_n >= 1, "cancel-issued-inside-a-pass")
         .class_if(c.cos.iter().any(|p| p.end == End::Panic), "panic")
 }
 
